@@ -36,6 +36,11 @@
 #define PARSE_EXPECTED_COMMA     -3
 #define PARSE_EXPECTED_SEMICOLON -4
 #define PARSE_SYSTEM_ERROR       -5
+#define PARSE_TOO_DEEP           -6
+
+/* Blocks may be nested this deep (each level is a level of recursion
+ * in the parser, in the merge and in the cleanup). */
+#define CONF_MAX_DEPTH 100
 
 static struct conf_node_object conf_root;
 static struct log_type *conf_log;
@@ -59,6 +64,7 @@ struct conf_parse {
     const char *c_function;
     int line_num;
     int c_errno;
+    int depth;
 };
 
 static void config_init(void);
@@ -736,6 +742,8 @@ static void conf_parse_entry(struct conf_parse *parse, struct conf_node_object *
         node = conf_parse_get_child(parent, name, CONF_OBJECT, sizeof(*node));
         node->contents.compare = conf_object_cmp;
         node->contents.cleanup = conf_object_cleanup;
+        if (++parse->depth > CONF_MAX_DEPTH)
+            longjmp(parse->env, PARSE_TOO_DEEP);
         while (1) {
             ch = conf_parse_whitespace(parse, 0);
             if (ch == '}')
@@ -745,6 +753,7 @@ static void conf_parse_entry(struct conf_parse *parse, struct conf_node_object *
             parse->curr--;
             conf_parse_entry(parse, node);
         }
+        parse->depth--;
     } else {
         char *string;
 
@@ -1177,6 +1186,9 @@ int conf_read(const char *filename)
         break;
     case PARSE_SYSTEM_ERROR:
         log_message(conf_log, LOG_ERROR, "System error from %s: %s", parse.c_function, strerror(parse.c_errno));
+        break;
+    case PARSE_TOO_DEEP:
+        log_message(conf_log, LOG_ERROR, "Blocks nested more than %d deep on line %d of %s.", CONF_MAX_DEPTH, parse.line_num, filename);
         break;
     default:
         if (!parse.line_num)
